@@ -35,7 +35,7 @@ def run(ctx):
     ctx.rule("R04.2", "keywords and enumerated words are upper-cased before they are matched")
     ctx.rule("R04.3", "numbers are kept as the exact decimal written: LefDecimal values come from Decimal::from_str on the token text, never through f64; mantissa() is only read at scale 0")
     from rules import mergerules as mr
-    mr.rule_no_overwrite_in_loop(ctx, "R04.1c", ["lef21::read::"], floor=10)
+    mr.rule_no_overwrite_in_loop(ctx, "R04.1c", ["lef21::read::"], floor=3)
     lr.rule_text_verbatim(ctx, "R04.5")
     mr.rule_fresh_buffers(ctx, "R04.1d", ["lef21::read::"])
     parsers = [f for f in F.fns.values() if f.id.startswith(PARSER) and f.kind != "Closure" and "LefParser" in f.name and not f.derived]
@@ -92,7 +92,7 @@ def run(ctx):
                     ctx.ok("R04.1b", key, "filled from input")
                 else:
                     ctx.violation("R04.1b", key, "%s never stores anything read from the input into %s (it keeps its default): statements for it are lost" % (f.short, key), "%s:%d" % (f.sp[0], f.sp[1]), key)
-    ctx.floor("R04.1", "parse_steps", n_steps, 40)
+    ctx.floor("R04.1", "parse_steps", n_steps, 20)
     ctx.floor("R04.1b", "struct_fields", n_fields, 60)
 
     # ---- R04.2 case-insensitive matching
